@@ -72,6 +72,15 @@ CHECKS = {
             "Trusted: TLC; py_func is the body numba compiles (compiled path covered by the trace lane); regions for "
             "dinucleotide_shuffle are 'either' unless n=1 and length >= 3.",
             "DESIGN.md §5 C02"),
+    "C03": (["Batching", "Batching_Trace"],
+            "step-shaped TLA+ model of predict's loop (Batching.tla) model-checked with TLC (safety + liveness); recorded calls "
+            "of the real predict with a recording model are replayed through the model's actions by Batching_Trace",
+            "TLC checks every (n, batch size, args) of the scope: windows partition 0..n-1 in order, eval/no-grad inside the loop, "
+            "mis-sized args rejected, termination. Every recorded forward call of the implementation must be the model's next Batch "
+            "step (same window for X and every arg, eval, no grad) and the return must be its Concat; design invariants are "
+            "evaluated at every step of every recorded execution.",
+            "Trusted: TLC; the recording model's log (row ids decoded from the input it receives).",
+            "DESIGN.md §5 C03"),
 }
 
 ALL = ["C%02d" % i for i in range(1, 21)]
